@@ -41,6 +41,7 @@ func (e *Exec) concretizeBlobs(m map[string]string) {
 		isObj   bool
 		isUint  bool
 		uval    uint64
+		isJObj  bool
 	}
 	factsOf := func(ts []*Term) []facts {
 		var qs []*Term
@@ -48,16 +49,17 @@ func (e *Exec) concretizeBlobs(m map[string]string) {
 			str := mkOp("sOfB", SStr, x)
 			qs = append(qs, x, mkOp("=", SBool, x, mkOp("bOfS", SBlob, str)), str,
 				mkOp("blen", SInt, x), mkOp("bfirst", SBV(8), x), mkOp("blast", SBV(8), x), jsonValid(x), xisObj(x),
-				mkUF("jsonUint", SBool, x), mkUF("juint", SBV(64), x))
+				mkUF("jsonUint", SBool, x), mkUF("juint", SBV(64), x), oisObj(x))
 		}
 		vals := e.solver.GetValues(qs)
 		out := make([]facts, len(ts))
 		for i := range ts {
-			v := vals[10*i:]
+			v := vals[11*i:]
 			out[i] = facts{abs: strings.TrimSpace(v[0]), isStr: strings.TrimSpace(v[1]) == "true", str: parseSMTString(v[2]),
 				n: int(parseSMTInt(v[3])), first: byte(parseSMTBV(v[4])), last: byte(parseSMTBV(v[5])),
 				isJSON: strings.TrimSpace(v[6]) == "true", isObj: strings.TrimSpace(v[7]) == "true",
-				isUint: strings.TrimSpace(v[8]) == "true", uval: parseSMTBV(v[9])}
+				isUint: strings.TrimSpace(v[8]) == "true", uval: parseSMTBV(v[9]),
+				isJObj: strings.TrimSpace(v[10]) == "true"}
 		}
 		return out
 	}
@@ -136,6 +138,56 @@ func (e *Exec) concretizeBlobs(m map[string]string) {
 		}
 		sb.WriteByte('}')
 		assign(f.abs, sb.String())
+	}
+	// pass 2b: JSON object documents over the property universe (C18 model), depth <= 2
+	P := e.props()
+	if len(P) > 0 {
+		var pnames []string
+		for _, v := range e.solver.GetValues(P) {
+			pnames = append(pnames, parseSMTString(v))
+		}
+		var build func(t *Term, f facts, depth int) string
+		build = func(t *Term, f facts, depth int) string {
+			if c, ok := assigned[f.abs]; ok {
+				return c
+			}
+			if !f.isJObj || depth > 2 {
+				return leaf(f)
+			}
+			var hq, gq []*Term
+			for _, p := range P {
+				hq = append(hq, ohas(t, p))
+				gq = append(gq, oget(t, p))
+			}
+			hv := e.solver.GetValues(hq)
+			gf := factsOf(gq)
+			type kv struct{ k, v string }
+			var members []kv
+			for k := range P {
+				if strings.TrimSpace(hv[k]) == "true" {
+					members = append(members, kv{pnames[k], build(gq[k], gf[k], depth+1)})
+				}
+			}
+			sort.Slice(members, func(a, b int) bool { return members[a].k < members[b].k })
+			var sb strings.Builder
+			sb.WriteByte('{')
+			for j, mbr := range members {
+				if j > 0 {
+					sb.WriteByte(',')
+				}
+				fmt.Fprintf(&sb, "%q:%s", mbr.k, mbr.v)
+			}
+			sb.WriteByte('}')
+			assign(f.abs, sb.String())
+			return sb.String()
+		}
+		for i, in := range blobs {
+			f := fs[i]
+			if _, ok := assigned[f.abs]; ok || !f.isJObj || in.Kind == "xattrs" {
+				continue
+			}
+			build(in.T, f, 1)
+		}
 	}
 	// pass 3: JSON-valued and opaque blobs
 	for _, f := range fs {
